@@ -1,142 +1,12 @@
-import HdVerif.Model.Aliasing
-/-! Helper lemmas for C20 (copy-or-alias data flow): the frame property of the write log, independence of the log from
-contents, reduction of valuations modulo `2^k`, and soundness of the three Boolean table checks. -/
+import HdVerif.Proofs.AliasSound
+/-! Helper lemmas for C20 (copy-or-alias data flow): reduction of valuations modulo `2^k`, and soundness of the three
+Boolean table checks with respect to the store semantics (every concrete run, `Proofs/AliasSound.lean`). -/
 set_option linter.unusedSimpArgs false
 namespace HdVerif.Aliasing
 
-/-- `s'` extends `s`: the write log only grows and every region outside the final log kept its content -/
-def Ext (s s' : State) : Prop :=
-  (∀ r, r ∈ s.writes → r ∈ s'.writes) ∧ (∀ r, r ∉ s'.writes → s'.store r = s.store r)
-
-theorem Ext.refl (s : State) : Ext s s := ⟨fun _ h => h, fun _ _ => rfl⟩
-
-theorem Ext.trans {a b c : State} (h1 : Ext a b) (h2 : Ext b c) : Ext a c := by
-  refine ⟨fun r h => h2.1 r (h1.1 r h), fun r h => ?_⟩
-  rw [h2.2 r h]
-  exact h1.2 r (fun hb => h (h2.1 r hb))
-
 mutual
-theorem exec_ext (v : Nat) (w : Nat → Nat → Nat) : ∀ (st : Stmt) (s : State), Ext s (exec v w st s)
-  | .assign x e, s => by
-    unfold exec; split
-    · exact Ext.refl s
-    · exact ⟨fun _ h => h, fun _ _ => rfl⟩
-  | .write e, s => by
-    unfold exec; split
-    · exact Ext.refl s
-    · refine ⟨fun r h => ?_, fun r h => ?_⟩
-      · simp only [List.mem_append]; exact Or.inr h
-      · simp only [List.mem_append, not_or] at h
-        have : ((eval s.env s.links s.next e).1.regions).contains r = false := by
-          simpa using h.1
-        simp only [this]
-        rfl
-  | .writeDeep e, s => by
-    unfold exec; split
-    · exact Ext.refl s
-    · refine ⟨fun r h => ?_, fun r h => ?_⟩
-      · simp only [List.mem_append]; exact Or.inr h
-      · simp only [List.mem_append, not_or] at h
-        have : (closure s.links (s.links.length + 1) (eval s.env s.links s.next e).1.regions).contains r = false := by
-          simpa using h.1
-        simp only [this]
-        rfl
-  | .link a f b, s => by
-    unfold exec; split
-    · exact Ext.refl s
-    · exact ⟨fun _ h => h, fun _ _ => rfl⟩
-  | .ite c t e, s => by
-    unfold exec; split
-    · exact Ext.refl s
-    · split
-      · exact execList_ext v w t s
-      · exact execList_ext v w e s
-  | .ret e, s => by
-    unfold exec; split
-    · exact Ext.refl s
-    · exact ⟨fun _ h => h, fun _ _ => rfl⟩
-  | .raise, s => by
-    unfold exec; split
-    · exact Ext.refl s
-    · exact ⟨fun _ h => h, fun _ _ => rfl⟩
-
-theorem execList_ext (v : Nat) (w : Nat → Nat → Nat) : ∀ (p : List Stmt) (s : State), Ext s (execList v w p s)
-  | [], s => by unfold execList; exact Ext.refl s
-  | st :: rest, s => by
-    unfold execList
-    exact Ext.trans (exec_ext v w st s) (execList_ext v w rest (exec v w st s))
-end
-
-/-- **frame**: whatever a program does, a region that is not in its write log has the content it had before -/
-theorem frame (p : Prog) (nIn v : Nat) (w : Nat → Nat → Nat) (store : Nat → Nat) (r : Nat)
-    (h : r ∉ (run p nIn v w store).writes) : (run p nIn v w store).store r = store r :=
-  (execList_ext v w p (init nIn store)).2 r h
-
-/-- two states that agree on everything but the contents -/
-def Sim (a b : State) : Prop :=
-  a.env = b.env ∧ a.next = b.next ∧ a.links = b.links ∧ a.writes = b.writes ∧ a.result = b.result ∧ a.halted = b.halted
-
-mutual
-theorem exec_sim (v : Nat) (w w' : Nat → Nat → Nat) :
-    ∀ (st : Stmt) (a b : State), Sim a b → Sim (exec v w st a) (exec v w' st b)
-  | .assign x e, a, b, h => by
-    obtain ⟨h1, h2, h3, h4, h5, h6⟩ := h
-    unfold exec; rw [h6]; split
-    · exact ⟨h1, h2, h3, h4, h5, h6⟩
-    · refine ⟨?_, ?_, ?_, ?_, ?_, ?_⟩ <;> simp [h1, h2, h3, h4, h5, h6]
-  | .write e, a, b, h => by
-    obtain ⟨h1, h2, h3, h4, h5, h6⟩ := h
-    unfold exec; rw [h6]; split
-    · exact ⟨h1, h2, h3, h4, h5, h6⟩
-    · refine ⟨?_, ?_, ?_, ?_, ?_, ?_⟩ <;> simp [h1, h2, h3, h4, h5, h6]
-  | .writeDeep e, a, b, h => by
-    obtain ⟨h1, h2, h3, h4, h5, h6⟩ := h
-    unfold exec; rw [h6]; split
-    · exact ⟨h1, h2, h3, h4, h5, h6⟩
-    · refine ⟨?_, ?_, ?_, ?_, ?_, ?_⟩ <;> simp [h1, h2, h3, h4, h5, h6]
-  | .link x f y, a, b, h => by
-    obtain ⟨h1, h2, h3, h4, h5, h6⟩ := h
-    unfold exec; rw [h6]; split
-    · exact ⟨h1, h2, h3, h4, h5, h6⟩
-    · refine ⟨?_, ?_, ?_, ?_, ?_, ?_⟩ <;> simp [h1, h2, h3, h4, h5, h6]
-  | .ite c t e, a, b, h => by
-    have h6 := h.2.2.2.2.2
-    unfold exec; rw [h6]; split
-    · exact h
-    · split
-      · exact execList_sim v w w' t a b h
-      · exact execList_sim v w w' e a b h
-  | .ret e, a, b, h => by
-    obtain ⟨h1, h2, h3, h4, h5, h6⟩ := h
-    unfold exec; rw [h6]; split
-    · exact ⟨h1, h2, h3, h4, h5, h6⟩
-    · refine ⟨?_, ?_, ?_, ?_, ?_, ?_⟩ <;> simp [h1, h2, h3, h4, h5, h6]
-  | .raise, a, b, h => by
-    obtain ⟨h1, h2, h3, h4, h5, h6⟩ := h
-    unfold exec; rw [h6]; split
-    · exact ⟨h1, h2, h3, h4, h5, h6⟩
-    · refine ⟨?_, ?_, ?_, ?_, ?_, ?_⟩ <;> simp [h1, h2, h3, h4, h5, h6]
-
-theorem execList_sim (v : Nat) (w w' : Nat → Nat → Nat) :
-    ∀ (p : List Stmt) (a b : State), Sim a b → Sim (execList v w p a) (execList v w' p b)
-  | [], a, b, h => by unfold execList; exact h
-  | st :: rest, a, b, h => by
-    unfold execList
-    exact execList_sim v w w' rest _ _ (exec_sim v w w' st a b h)
-end
-
-/-- the write log, the result and termination of a run do not depend on the contents or on what a write does:
-`summary` describes every run -/
-theorem run_summary (p : Prog) (nIn v : Nat) (w : Nat → Nat → Nat) (store : Nat → Nat) :
-    ((run p nIn v w store).writes, (run p nIn v w store).result, (run p nIn v w store).halted) = summary p nIn v := by
-  have h := execList_sim v w (fun _ x => x) p (init nIn store) (init nIn (fun _ => 0)) ⟨rfl, rfl, rfl, rfl, rfl, rfl⟩
-  unfold summary run
-  obtain ⟨_, _, _, h4, h5, h6⟩ := h
-  simp only [h4, h5, h6]
-
-mutual
-theorem exec_mod (k v : Nat) (w : Nat → Nat → Nat) :
-    ∀ (st : Stmt) (s : State), condsBelow k st = true → exec v w st s = exec (v % 2 ^ k) w st s
+theorem exec_mod (k v : Nat) :
+    ∀ (st : Stmt) (s : AState), condsBelow k st = true → exec v st s = exec (v % 2 ^ k) st s
   | .assign x e, s, _ => by unfold exec; rfl
   | .write e, s, _ => by unfold exec; rfl
   | .writeDeep e, s, _ => by unfold exec; rfl
@@ -148,82 +18,63 @@ theorem exec_mod (k v : Nat) (w : Nat → Nat → Nat) :
     unfold exec
     rw [Nat.testBit_mod_two_pow]
     simp only [hc, decide_true, Bool.true_and]
-    rw [execList_mod k v w t s ht, execList_mod k v w e s he]
+    rw [execList_mod k v t s ht, execList_mod k v e s he]
   | .ret e, s, _ => by unfold exec; rfl
   | .raise, s, _ => by unfold exec; rfl
 
-theorem execList_mod (k v : Nat) (w : Nat → Nat → Nat) :
-    ∀ (p : List Stmt) (s : State), condsBelowList k p = true → execList v w p s = execList (v % 2 ^ k) w p s
+theorem execList_mod (k v : Nat) :
+    ∀ (p : List Stmt) (s : AState), condsBelowList k p = true → execList v p s = execList (v % 2 ^ k) p s
   | [], s, _ => by unfold execList; rfl
   | st :: rest, s, h => by
     unfold condsBelowList at h
     simp only [Bool.and_eq_true] at h
     unfold execList
-    rw [exec_mod k v w st s h.1, execList_mod k v w rest _ h.2]
+    rw [exec_mod k v st s h.1, execList_mod k v rest _ h.2]
 end
 
-/-! ## soundness of the table checks -/
-
-theorem run_mod (e : Entry) (hc : condsBelowList e.nCond e.prog = true) (v : Nat) (w : Nat → Nat → Nat)
-    (store : Nat → Nat) : run e.prog e.nIn v w store = run e.prog e.nIn (v % 2 ^ e.nCond) w store := by
-  unfold run; exact execList_mod e.nCond v w e.prog _ hc
+/-- only the conditions a program mentions matter to the analysis -/
+theorem analyse_mod (e : Entry) (hc : condsBelowList e.nCond e.prog = true) (v : Nat) :
+    analyse e.prog e.nIn v = analyse e.prog e.nIn (v % 2 ^ e.nCond) := by
+  unfold analyse; exact execList_mod e.nCond v e.prog _ hc
 
 theorem mem_range_mod (v k : Nat) : v % 2 ^ k ∈ List.range (2 ^ k) :=
   List.mem_range.mpr (Nat.mod_lt _ (Nat.two_pow_pos k))
 
-/-- a table entry that passes `neverWritesInputs`: in every run, whatever the opaque conditions decide and whatever a
-write does to the content of the regions it hits, every input region ends with the content it started with -/
-theorem neverWritesInputs_sound (e : Entry) (hc : condsBelowList e.nCond e.prog = true)
-    (h : neverWritesInputs e = true) (v : Nat) (w : Nat → Nat → Nat) (store : Nat → Nat) (r : Nat) (hr : r < e.nIn) :
-    (run e.prog e.nIn v w store).store r = store r := by
-  rw [run_mod e hc]
-  apply frame
-  intro hmem
-  have hs := run_summary e.prog e.nIn (v % 2 ^ e.nCond) w store
-  unfold neverWritesInputs at h
-  have h1 := List.all_eq_true.mp h _ (mem_range_mod v e.nCond)
-  rw [← hs] at h1
-  have := List.all_eq_true.mp h1 r hmem
-  simp at this
-  omega
+/-! ## soundness of the table checks (about every concrete run) -/
 
-/-- `copy = True`: the inputs keep their content and whatever is returned lives in a newly allocated region -/
+/-- a table entry that passes `neverWritesInputs`: in every run of its program on the store semantics — any world of the
+caller, any valuation of the opaque conditions, any oracle, any effect of writes — every cell of the caller ends with the
+content it started with -/
+theorem neverWritesInputs_sound (e : Entry) (hc : condsBelowList e.nCond e.prog = true) (h : neverWritesInputs e = true)
+    (W : World) (hW : W.ok e.nIn) (v : Nat) (ch : Nat → Nat) (w : Nat → Nat → Nat) (c : Nat) (hlt : c < W.base) :
+    (runC e.prog e.nIn W v ch w).store c = W.store c := by
+  apply sound_clean e.prog hW v ch w _ c hlt
+  rw [analyse_mod e hc]
+  exact List.all_eq_true.mp h _ (mem_range_mod v e.nCond)
+
+/-- `copy = True`: the caller's cells keep their content and whatever is returned is a cell allocated during the call -/
 theorem copyLeavesOriginal_sound (e : Entry) (hc : condsBelowList e.nCond e.prog = true) (hk : 0 < e.nCond)
-    (h : copyLeavesOriginal e = true) (v : Nat) (hv : v.testBit 0 = true) (w : Nat → Nat → Nat) (store : Nat → Nat) :
-    (∀ r, r < e.nIn → (run e.prog e.nIn v w store).store r = store r) ∧
-    (∀ ref, (run e.prog e.nIn v w store).result = some ref → ∀ k ∈ ref.regions, e.nIn ≤ k) := by
-  rw [run_mod e hc]
-  have hs := run_summary e.prog e.nIn (v % 2 ^ e.nCond) w store
-  unfold copyLeavesOriginal at h
+    (h : copyLeavesOriginal e = true) (W : World) (hW : W.ok e.nIn) (v : Nat) (hv : v.testBit 0 = true) (ch : Nat → Nat)
+    (w : Nat → Nat → Nat) :
+    (∀ c, c < W.base → (runC e.prog e.nIn W v ch w).store c = W.store c) ∧
+    (∀ val, (runC e.prog e.nIn W v ch w).result = some val → W.base ≤ val.cell) := by
+  apply sound_fresh e.prog hW v ch w
+  rw [analyse_mod e hc]
   have h1 := List.all_eq_true.mp h _ (mem_range_mod v e.nCond)
   have hb : (v % 2 ^ e.nCond).testBit 0 = true := by
     rw [Nat.testBit_mod_two_pow]; simp [hk, hv]
-  rw [← hs] at h1
-  simp only [hb, Bool.not_true, Bool.false_or, Bool.and_eq_true] at h1
-  refine ⟨fun r hr => ?_, fun ref href => ?_⟩
-  · apply frame
-    intro hmem
-    have := List.all_eq_true.mp h1.1 r hmem
-    simp at this
-    omega
-  · have h2 := h1.2
-    rw [href] at h2
-    intro k hk
-    have := List.all_eq_true.mp h2 k hk
-    simpa using this
+  simpa [hb] using h1
 
-/-- `copy = False`: whatever is returned is the object that was passed in -/
-theorem nocopyReturnsSame_sound (e : Entry) (hc : condsBelowList e.nCond e.prog = true)
-    (h : nocopyReturnsSame e = true) (v : Nat) (hv : v.testBit 0 = false) (w : Nat → Nat → Nat) (store : Nat → Nat)
-    (ref : Ref) (href : (run e.prog e.nIn v w store).result = some ref) : ref = ⟨[0], true⟩ := by
-  rw [run_mod e hc] at href
-  have hs := run_summary e.prog e.nIn (v % 2 ^ e.nCond) w store
-  unfold nocopyReturnsSame at h
+/-- `copy = False`: whatever is returned is the very object passed as argument 0 -/
+theorem nocopyReturnsSame_sound (e : Entry) (hc : condsBelowList e.nCond e.prog = true) (hn : 0 < e.nIn)
+    (h : nocopyReturnsSame e = true) (W : World) (hW : W.ok e.nIn) (v : Nat) (hv : v.testBit 0 = false) (ch : Nat → Nat)
+    (w : Nat → Nat → Nat) (val : CVal)
+    (hval : (runC e.prog e.nIn W v ch w).result = some val) : val = ⟨W.args.getD 0 0, true⟩ := by
+  apply sound_same e.prog hW hn v ch w _ val hval
+  rw [analyse_mod e hc]
   have h1 := List.all_eq_true.mp h _ (mem_range_mod v e.nCond)
   have hb : (v % 2 ^ e.nCond).testBit 0 = false := by
     rw [Nat.testBit_mod_two_pow]; simp [hv]
-  rw [← hs] at h1
-  simp only [hb, Bool.false_or, href] at h1
-  simpa using h1
+  simpa [hb] using h1
 
 end HdVerif.Aliasing
